@@ -4,6 +4,7 @@ use crate::common::*;
 use iceoryx2_bb_container::queue::*;
 
 pub trait QLike<T> {
+    fn q_relocate(&mut self) {}
     fn q_push(&mut self, t: T) -> bool;
     fn q_push_overflow(&mut self, t: T) -> Option<T>;
     fn q_pop(&mut self) -> Option<T>;
@@ -26,6 +27,7 @@ macro_rules! safe_q {
 safe_q!(Queue<T>, [T]);
 safe_q!(FixedSizeQueue<T, N>, [T, const N: usize]);
 impl<T> QLike<T> for RelocBlock<RelocatableQueue<T>> {
+    fn q_relocate(&mut self) { self.relocate() }
     fn q_push(&mut self, t: T) -> bool { unsafe { self.get().push(t) } }
     fn q_push_overflow(&mut self, t: T) -> Option<T> { unsafe { self.get().push_with_overflow(t) } }
     fn q_pop(&mut self) -> Option<T> { unsafe { self.get().pop() } }
@@ -72,6 +74,10 @@ fn dec(x: u64) -> String {
 }
 impl Comp for QueueComp {
     fn exec(&mut self, t: &[&str]) -> String {
+        if t[0] == "reloc" {
+            if let Some(q) = self.q.as_mut() { q.q_relocate(); }
+            return format!("ok {}", take_drops());
+        }
         if t[0] == "new" {
             self.q = None;
             self.c = None;
